@@ -239,12 +239,12 @@ func withinOracle(a, b *big.Int, d int64) bool {
 // cloneExact copies a valid message through its wire form. Unlike proto.Clone (whose merge skips
 // implicit-presence floats that compare == 0) it keeps a populated -0.
 func cloneExact(m proto.Message) proto.Message {
-	b, err := proto.MarshalOptions{Deterministic: true}.Marshal(m)
+	b, err := proto.MarshalOptions{Deterministic: true, AllowPartial: true}.Marshal(m)
 	if err != nil {
 		panic(err)
 	}
 	c := m.ProtoReflect().New().Interface()
-	if err := proto.Unmarshal(b, c); err != nil {
+	if err := unmarshalPartial(b, c); err != nil {
 		panic(err)
 	}
 	concretize(c.ProtoReflect())
